@@ -189,6 +189,7 @@ def _finish(res, w, results=None):
     res['sim_time'] = round(w.sim_time(), 6)
     res['digest'] = w.digest()
     res['order_digest'] = w.order_digest()
+    res['rank_order_digest'] = w.rank_order_digest()
     res['faults'] = dict(w.fault_counts)
     p = dict(w.probes)
     p.update(res.get('probes') or {})
@@ -249,6 +250,7 @@ class Multi:
         res['sim_time'] = round(sum(p['sim_time'] for p in self.parts), 6)
         res['digest'] = hashlib.sha256(''.join(p['digest'] for p in self.parts).encode()).hexdigest()[:16]
         res['order_digest'] = hashlib.sha256(''.join(p['order_digest'] for p in self.parts).encode()).hexdigest()[:16]
+        res['rank_order_digest'] = hashlib.sha256(''.join(p.get('rank_order_digest', '') for p in self.parts).encode()).hexdigest()[:16]
         faults, probes = {}, {}
         for p in self.parts:
             for k, v in p['faults'].items():
@@ -371,6 +373,7 @@ def _work_inner(cid, tier, base_seed, indices, per_case_timeout):
         slim = {k: res[k] for k in ('status', 'prop', 'kind', 'message', 'nontrivial', 'events',
                                     'sim_time', 'digest', 'order_digest', 'faults', 'probes',
                                     'wall', 'finding_key', 'tape_len')}
+        slim['rank_order_digest'] = res.get('rank_order_digest', '')
         slim['idx'] = i
         slim['key'] = case_key(case)
         slim['P'] = case.get('P')
@@ -680,6 +683,7 @@ def main_one(cid, tier, base_seed, idx):
     res = run_case(mod, case)
     slim = {k: res[k] for k in ('status', 'prop', 'kind', 'message', 'nontrivial', 'events', 'sim_time', 'digest',
                                 'order_digest', 'faults', 'probes', 'wall', 'finding_key', 'tape_len')}
+    slim['rank_order_digest'] = res.get('rank_order_digest', '')
     slim['idx'] = idx
     slim['key'] = case_key(case)
     slim['P'] = case.get('P')
@@ -724,6 +728,8 @@ def summarise(mod, tier, base_seed, results, harness_errors, skipped_chunks, wal
         fault_firings=dict(sorted(faults.items())),
         reach_probes=dict(sorted(probes.items())),
         distinct_interleavings=len({r['order_digest'] for r in results}),
+        distinct_rank_orders=len({r.get('rank_order_digest', '') for r in results if r.get('P') not in (None, 1)}),
+        distinct_rank_orders_measure='distinct SHA-256 of the bare sequence of rank ids in scheduler processing order (no operation names or contexts), over runs with more than one rank: the interleaving pattern alone',
         distinct_interleavings_measure='distinct SHA-256 of the global sequence of (rank, call kind, context, per-context sequence number, operation) over all processed simulator calls of a run; this separates workloads as well as schedules, i.e. it counts distinct (workload, interleaving) pairs - cases of one batch have different workloads, so it is an upper bound on distinct interleavings of any one workload',
         inconclusive=status_counts.get('harness', 0),
         skipped_cases=status_counts.get('skip', 0),
